@@ -174,10 +174,19 @@ def main():
     wd = common.scratch("c12-")
     try:
         st, exp = run_all(v, hists, wd, tier)
+        # host faults: the host function that carries out a call fails (every error POSIX lists for it, in turn): the call must
+        # return the WASI number of that error, store nothing, and leave position, descriptor numbering and files as they were
+        frng = random.Random(SEED + 12012)
+        fh = wasi.fault_histories(frng, wasi.FILE_FAULTS, 4 if tier == "quick" else None)
+        fst, _ = wasi.run_fault_histories(v, fh, wd, "hostfault")
+        st["states"] += fst["states"]
+        st["transitions"] += fst["transitions"]
+        st["compared"] += fst["compared"]
+        st["distinct"] += fst["distinct_faults"]
     finally:
         shutil.rmtree(wd, ignore_errors=True)
     h0 = hists[0]
-    cov = {"states": st["states"], "transitions": st["transitions"], "traces_validated_against_impl": len(hists),
+    cov = {"states": st["states"], "transitions": st["transitions"], "traces_validated_against_impl": len(hists) + len(fh),
            "samples": [{"history": [dict(c, segs=c.get("segs", [])[:2]) for c in h0["calls"][:6]],
                         "spec_says": [{"errno": exp[(h0["id"], len(h0["setup"]) + j + 1)]["errno"], "out": exp[(h0["id"], len(h0["setup"]) + j + 1)]["out"]} for j in range(min(6, len(h0["calls"])))]}],
            "evaluations": st["compared"], "distinct_nontrivial": st["distinct"],
@@ -185,8 +194,11 @@ def main():
                    "directory descriptor, absolute paths), fd_write/fd_pwrite (0..3 segments incl. empty ones), fd_read/fd_pread, fd_seek (both whence "
                    "encodings, negative and >2^32 deltas), fd_tell, fd_filestat_get (both record layouts), fd_close through both ABI name spaces, "
                    "offsets incl. 2^32 and 2^32+1 (sparse files); after EVERY call errno and every changed guest-memory byte, after every mutating "
-                   "call the host files (size, first 64 and last 16 bytes), are compared with WasiFs.tla",
-           "histories": len(hists), "exhaustive": False}
+                   "call the host files (size, first 64 and last 16 bytes), are compared with WasiFs.tla; host faults: histories in which the host "
+                   "function behind one call (open / read / write / lseek / fstat / fsync families, injected at link level) fails with an error POSIX "
+                   "lists for it - WasiFs.CallWithFault: the WASI number of that error, nothing stored, position / next descriptor number / files unchanged",
+           "histories": len(hists), "host_fault_histories": len(fh),
+           "host_faults": {k: fst[k] for k in ("faults_fired", "faults_not_reached", "distinct_faults")}, "exhaustive": False}
     return v.finish("model_checking", cov,
                     ["Linux semantics of the host calls (tmpfs/ext4 under /tmp); device, inode, link count and time stamps of filestat are not predicted",
                      "an ASan build of wasi.c is the observer for host-memory errors"])
